@@ -3,7 +3,7 @@
     QidMapProofs.v, Mode.v. *)
 From Coq Require Import NArith String List Bool.
 From P9V Require Import Base.Str gen.ConstGen gen.FsGen20 Fsx.Readdir Fsx.Qid Fsx.QidArith Fsx.QidConc Fsx.MapperConc
-     Fsx.QidMap Fsx.QidMapProofs Fsx.Mode Fsx.LocalQidStable Fsx.LocalInfo Fsx.FsGenSpec20.
+     Fsx.QidMap Fsx.QidMapProofs Fsx.Mode Fsx.ModeProofs Fsx.LocalQidStable Fsx.LocalInfo Fsx.FsGenSpec20.
 Import ListNotations.
 Open Scope list_scope.
 Open Scope N_scope.
@@ -146,6 +146,13 @@ Theorem C20_info_use_sites : forall t0 n0 s qe t1 n1 h1 t2 n2 qw t3 n3 h2 t4 n4 
   qw = qe /\ qg = qe /\ q_type qe = info_type (st_mode s).
 Proof. exact local_readdir_walk_getattr_agree. Qed.
 Print Assumptions C20_info_use_sites.
+
+(** the hand models of Mode.v are the decision tables go2coq reads from p9.go
+    (ModeFromOS, OSMode, QIDType), for every mode word *)
+Theorem C20_mode_tables : forall w,
+  ModeFromOS w = ModeFromOS_tbl w /\ OSMode w = OSMode_tbl w /\ QIDType w = QIDType_tbl w.
+Proof. intros w. split; [apply ModeFromOS_is_table|split; [apply OSMode_is_table|apply QIDType_is_table]]. Qed.
+Print Assumptions C20_mode_tables.
 
 (** the source the models transcribe is the one in the tree; Mapper.paths is only
     touched by functions that start with m.mu.Lock(); defer m.mu.Unlock() *)
